@@ -1,14 +1,21 @@
 """Translator part for C14: validators and convert_value.
 
-* shallow translation of `Min.validate`, `Max.validate`, `MinLength.validate`, `MaxLength.validate`, `NotEmpty.validate`
-  (if/elif/else, comparisons, and/or/not, len(), isinstance against str / collections.abc.*, `.strip()`, conditional
-  expression, attribute reads of self, `return`, `self.raise_exception` / `raise X(...)` -> `.raises <class>`) into Lean
-  functions over the exact number model `Num`, lengths (`Int`) and `Val`;
+* statement-by-statement translation of the `validate` bodies of `Min`, `Max`, `MinLength`, `MaxLength`, `NotEmpty`, `IsUuid`,
+  `IsEnum`, `MatchPattern`, `DatetimeIsoFormat`, `DateTimeUnixTimestamp` and `Email` into Lean functions over the exact number
+  model `Num`, lengths (`Int`) and `Val` (class `Tr`): if/elif/else, comparisons, and/or/not, len(), isinstance against str /
+  builtin type names / collections.abc.*, `.strip()`, conditional expression, attribute reads of self, `name = e`, `return`,
+  `self.raise_exception` / `raise X(...)` -> `.raises <class>`, and `try: ... except (A, B): ...` (the `.raises e` arm of every
+  call inside the try tests `catches <class>Caught<i> e`, innermost try first).  The standard-library callees (`UUID(str(x))`,
+  `isinstance(x, str)`, `x.upper()`, `issubclass(self._enum, IntEnum)`, `int(x)`, `self._enum(x)`, `self._pattern.search(str(x))`,
+  `re.fullmatch(self._pattern, x)`, `self._post_processor(x)`, `datetime.fromisoformat(x)`, `float(x)`, `timedelta(seconds=s)`,
+  `datetime(y, m, d) + <timedelta>`) are recognised by template (`Oracle`) and become applications of opaque function
+  parameters of the generated function; `__init__` must store the constructor parameters unchanged (`check_init*`).
+  Source outside this subset raises `Skip`;
 * tables: the class raised by `Validator.raise_exception`, the class hierarchy of exceptions.py, for every validator class
-  the classes raised on its rejection paths and the classes named by its `except` clauses, `REGEX_EMAIL`, the `re` entry
-  points used by Email / MatchPattern, the isinstance tuple of DateTimeUnixTimestamp, the literal date that
+  the classes raised by its rejection statements, for every try statement the classes named by its `except` clause
+  (`<class>Caught<i>`), `REGEX_EMAIL`, the `re` entry points used by Email / MatchPattern, the literal date that
   DateTimeUnixTimestamp adds the seconds to, and the structure of `convert_value`
-  (isinstance shortcut, normalisation chain, bool literal lists, special-cased targets, caught / raised classes);
+  (isinstance shortcut, normalisation chain, bool literal lists, which targets have a branch of their own, caught / raised classes);
 * `importTimeComputations`: everything the modules of the validators package (and convert_value.py) compute when they are
   IMPORTED - module-level and class-level statements other than imports / classes / functions / docstrings / assignments of a
   literal constant / a typing alias, parameter defaults other than literals, names and lambdas, decorators other than
@@ -16,7 +23,7 @@
   environment of that moment (time zone, locale, clock); the theorems hold for functions of the arguments only, so the list
   must be empty (`no_import_time_computation`).
 """
-import ast
+import ast, re
 from extract import Skip, src, find_func, lean_str, lean_bool, HEADER
 
 VDIR = 'pedantic/decorators/fn_deco_validate/validators/'
@@ -84,45 +91,143 @@ INTCMP = {ast.Lt: '<', ast.LtE: '≤', ast.Gt: '>', ast.GtE: '≥', ast.Eq: '=',
 ABC = {'Sized': 'Val.isSized', 'Sequence': 'Val.isSequence', 'Iterable': 'Val.isIterable'}
 
 
-class Tr:
-    """types: 'B' Bool, 'N' Num, 'I' Int, 'V' Val"""
+def _match_template(tpl, node, holes):
+    """structural match of `node` against the template AST `tpl`; names `_0`, `_1`, … of the template are holes"""
+    if isinstance(tpl, ast.Name) and re.fullmatch(r'_\d+', tpl.id):
+        holes[int(tpl.id[1:])] = node
+        return True
+    if type(tpl) is not type(node):
+        return False
+    for f in tpl._fields:
+        if f == 'ctx':
+            continue
+        a, b = getattr(tpl, f, None), getattr(node, f, None)
+        if isinstance(a, list):
+            if not isinstance(b, list) or len(a) != len(b) or not all(_match_template(x, y, holes) if isinstance(x, ast.AST) else x == y for x, y in zip(a, b)):
+                return False
+        elif isinstance(a, ast.AST):
+            if not isinstance(b, ast.AST) or not _match_template(a, b, holes):
+                return False
+        elif a != b:
+            return False
+    return True
 
-    def __init__(self, env, what):
+
+class Oracle:
+    """a call the translation does not look into: `template` (python expression with holes `_0`, …) becomes the application of the
+    opaque parameter `lean` to the translated holes; `arg_types` / `ret` are translation types; `raising`: the answer is an
+    `Orc` (the call can raise, and what it raises goes to the enclosing `except` clauses), else a plain value"""
+
+    def __init__(self, template, lean, arg_types, ret, raising):
+        self.tpl = ast.parse(template, mode='eval').body
+        self.lean, self.arg_types, self.ret, self.raising = lean, arg_types, ret, raising
+
+
+LEAN_RESERVED = {'e', 'at', 'end', 'open', 'section', 'namespace', 'instance', 'theorem', 'show', 'have', 'by', 'calc', 'where', 'deriving',
+                 'structure', 'universe', 'variable', 'mutual', 'local', 'private', 'protected', 'export', 'attribute', 'macro', 'syntax',
+                 'notation', 'infix', 'prefix', 'postfix', 'using', 'nomatch', 'nofun', 'fun', 'do', 'then', 'let', 'match', 'abbrev',
+                 'def', 'example', 'inductive', 'extends', 'unsafe', 'partial', 'noncomputable', 'from', 'suffices', 'obtain', 'catches'}
+ISINSTANCE_NAMES = {'bool', 'int', 'float', 'str', 'bytes', 'list', 'tuple', 'set', 'dict'}
+
+
+class Tr:
+    """types: 'B' Bool, 'N' Num, 'I' Int, 'V' Val, 'T' a timedelta (whole microseconds, Int).
+
+    Statement subset: `if`/`elif`/`else`, `return e`, `self.raise_exception(…)` / `raise X(…)`, `name = e`, and
+    `try: … except (A, B): …` (no else/finally).  The translation is in continuation-passing form: the statements after an `if`
+    or a `try` are translated once per path; a call of an `Oracle` that can raise becomes a `match` on its answer whose
+    `.raises e` arm tests the `except` clauses of the enclosing `try` statements from the innermost outwards (first clause that
+    catches `e` wins; its body, then the statements after that `try`, run outside it) and lets `e` escape when none does."""
+
+    def __init__(self, env, what, oracles=(), tree=None):
         self.env = env          # python expression text -> (lean name, type)
         self.what = what
+        self.oracles = list(oracles)
+        self.tree = tree
+        self.ntmp = 0
+        self.epochs = []        # literal dates that a timedelta was added to
 
     def skip(self, node):
         raise Skip(f'{self.what}: outside the translated subset: {ast.unparse(node)[:70]}')
 
-    def expr(self, e):
+    def fresh(self):
+        self.ntmp += 1
+        return f't{self.ntmp - 1}'
+
+    # ---------------------------------------------------------- expressions
+    def pure(self, e, env):
+        """an expression in a position that is evaluated conditionally: it must not contain a call that can raise"""
+        binds = []
+        r = self.expr(e, env, binds)
+        if binds:
+            self.skip(e)
+        return r
+
+    def expr(self, e, env=None, binds=None):
+        env = self.env if env is None else env
+        binds = [] if binds is None else binds
         key = ast.unparse(e)
-        if key in self.env:
-            return self.env[key]
+        if key in env:
+            return env[key]
+        for o in self.oracles:
+            holes = {}
+            if _match_template(o.tpl, e, holes):
+                args = []
+                for i, ty in enumerate(o.arg_types):
+                    a, t = self.expr(holes[i], env, binds)
+                    if t != ty:
+                        self.skip(e)
+                    args.append(a)
+                term = '(' + ' '.join([o.lean] + args) + ')' if args else o.lean
+                if not o.raising:
+                    return term, o.ret
+                name = self.fresh()
+                binds.append((name, term))
+                return name, o.ret
         if isinstance(e, ast.Constant) and isinstance(e.value, bool):
             return lean_bool(e.value), 'B'
         if isinstance(e, ast.Constant) and isinstance(e.value, int):
             return f'({e.value} : Int)', 'I'
         if isinstance(e, ast.BoolOp):
-            parts = [self.truth(v) for v in e.values]
+            parts = [self.truth(e.values[0], env, binds)] + [self.pure_truth(v, env) for v in e.values[1:]]
             return '(' + (' && ' if isinstance(e.op, ast.And) else ' || ').join(parts) + ')', 'B'
         if isinstance(e, ast.UnaryOp) and isinstance(e.op, ast.Not):
-            return f'(!{self.truth(e.operand)})', 'B'
+            return f'(!{self.truth(e.operand, env, binds)})', 'B'
         if isinstance(e, ast.Compare) and len(e.ops) == 1:
-            (l, tl), (r, tr_) = self.expr(e.left), self.expr(e.comparators[0])
+            (l, tl), (r, tr_) = self.expr(e.left, env, binds), self.expr(e.comparators[0], env, binds)
             op = type(e.ops[0])
             if tl == tr_ == 'N' and op in NUMCMP:
                 return f'({NUMCMP[op]} {l} {r})', 'B'
             if tl == tr_ == 'I' and op in INTCMP:
                 return f'(decide ({l} {INTCMP[op]} {r}))', 'B'
             self.skip(e)
+        if isinstance(e, ast.BinOp) and isinstance(e.op, ast.Add) and self.tree is not None:
+            # <date> + <timedelta>  (either order): the date arithmetic is the opaque parameter `datetimePlus`, applied to the
+            # generated table `dateTimeUnixTimestampEpoch` ([year, month, day] of the literal date, [] when it is not one)
+            for a, b in ((e.left, e.right), (e.right, e.left)):
+                tmp, n0 = [], self.ntmp
+                try:
+                    tb, ty = self.expr(b, env, tmp)
+                except Skip:
+                    self.ntmp = n0
+                    continue
+                if ty != 'T':
+                    self.ntmp = n0
+                    continue
+                binds.extend(tmp)
+                self.epochs.append(literal_date(a, self.tree))
+                name = self.fresh()
+                binds.append((name, f'(datetimePlus dateTimeUnixTimestampEpoch {tb})'))
+                return name, 'V'
+            self.skip(e)
         if isinstance(e, ast.Call):
             f = e.func
             if isinstance(f, ast.Name) and f.id == 'len' and len(e.args) == 1 and not e.keywords:
-                a, t = self.expr(e.args[0])
+                a, t = self.expr(e.args[0], env, binds)
                 if t == 'V':
                     return f'(Val.len {a})', 'I'
             if isinstance(f, ast.Name) and f.id == 'isinstance' and len(e.args) == 2 and not e.keywords:
-                a, t = self.expr(e.args[0])
+                a, t = self.expr(e.args[0], env, binds)
                 c = e.args[1]
                 if t == 'V' and isinstance(c, ast.Name) and c.id == 'str':
                     return f'(Val.isStr {a})', 'B'
@@ -130,60 +235,177 @@ class Tr:
                     return f'({ABC[c.attr]} {a})', 'B'
                 if t == 'V' and isinstance(c, ast.Name) and c.id in ABC:
                     return f'({ABC[c.id]} {a})', 'B'
+                names = [c] if isinstance(c, ast.Name) else (list(c.elts) if isinstance(c, ast.Tuple) else [])
+                if t == 'V' and names and all(isinstance(n, ast.Name) and n.id in ISINSTANCE_NAMES for n in names):
+                    return f'(List.any [{", ".join(lean_str(n.id) for n in names)}] (Val.isInstanceOf {a}))', 'B'
             if isinstance(f, ast.Attribute) and f.attr == 'strip' and not e.args and not e.keywords:
-                a, t = self.expr(f.value)
+                a, t = self.expr(f.value, env, binds)
                 if t == 'V':
                     return f'(Val.strip isSpace {a})', 'V'
             self.skip(e)
         if isinstance(e, ast.IfExp):
-            (a, ta), (b, tb) = self.expr(e.body), self.expr(e.orelse)
+            c = self.truth(e.test, env, binds)
+            (a, ta), (b, tb) = self.pure(e.body, env), self.pure(e.orelse, env)
             if ta == tb:
-                return f'(if {self.truth(e.test)} then {a} else {b})', ta
+                return f'(if {c} then {a} else {b})', ta
         self.skip(e)
 
-    def truth(self, e):
-        s, t = self.expr(e)
+    def truth(self, e, env=None, binds=None):
+        s, t = self.expr(e, env, binds)
         if t == 'B':
             return s
         if t == 'V':
             return f'(Val.truthy {s})'
         self.skip(e)
 
-    def stmts(self, body, ret_type, ind):
-        """translate a statement list whose every path ends in return / raise"""
+    def pure_truth(self, e, env):
+        binds = []
+        r = self.truth(e, env, binds)
+        if binds:
+            self.skip(e)
+        return r
+
+    # ---------------------------------------------------------- statements
+    def raise_(self, exc_term, scope, env, ret_type, ind):
+        """`raise <exc_term>` at a point enclosed by the try statements of `scope` (innermost last)"""
+        if not scope:
+            return f'{" " * ind}.raises {exc_term}\n'
+        (handlers, after), outer = scope[-1], scope[:-1]
+
+        def chain(hs, i):
+            if not hs:
+                return self.raise_(exc_term, outer, env, ret_type, i)
+            (table, hbody), more = hs[0], hs[1:]
+            hcode = self.stmts([(x, outer) for x in hbody] + list(after), dict(env), ret_type, i + 2)
+            return f'{" " * i}if catches {table} {exc_term} then\n{hcode}{" " * i}else\n' + chain(more, i + 2)
+        return chain(list(handlers), ind)
+
+    def with_binds(self, binds, scope, env, ret_type, ind, body):
+        """evaluate the raising oracle calls `binds` in order, then `body(ind)`"""
+        if not binds:
+            return body(ind)
+        (name, term), rest = binds[0], binds[1:]
         pad = ' ' * ind
-        body = strip_doc(body)
-        if not body:
+        return (f'{pad}(match {term} with\n{pad}| .raises e =>\n' + self.raise_('e', scope, env, ret_type, ind + 2)
+                + f'{pad}| .ok {name} =>\n' + self.with_binds(rest, scope, env, ret_type, ind + 2, body).rstrip('\n') + ')\n')
+
+    def stmts(self, items, env=None, ret_type='V', ind=2):
+        """translate a statement list whose every path ends in return / raise; `items`: statements or (statement, scope) pairs,
+        scope = the enclosing try statements as ((except table, handler body)*, statements after the try) from the outermost inwards"""
+        env = dict(self.env) if env is None else env
+        items = [it if isinstance(it, tuple) else (it, ()) for it in items]
+        items = [(s, sc) for s, sc in items if not (isinstance(s, ast.Expr) and isinstance(s.value, ast.Constant) and isinstance(s.value.value, str))]
+        pad = ' ' * ind
+        if not items:
             raise Skip(f'{self.what}: a path falls off the end of the function')
-        s, rest = body[0], body[1:]
+        (s, scope), rest = items[0], items[1:]
         r = rejection_class(s)
         if r is not None:
-            return f'{pad}.raises {r}\n'
+            return self.raise_(r, scope, env, ret_type, ind)
+        if isinstance(s, ast.Pass):
+            return self.stmts(rest, env, ret_type, ind)
+        binds = []
         if isinstance(s, ast.Return):
             if s.value is None:
                 self.skip(s)
-            v, t = self.expr(s.value)
+            v, t = self.expr(s.value, env, binds)
             if t != ret_type:
                 self.skip(s)
-            return f'{pad}.ok {v}\n'
+            return self.with_binds(binds, scope, env, ret_type, ind, lambda i: f'{" " * i}.ok {v}\n')
         if isinstance(s, ast.If):
-            then = self.stmts(s.body + rest, ret_type, ind + 2)
-            els = self.stmts(s.orelse + rest, ret_type, ind + 2)
-            return f'{pad}if {self.truth(s.test)} then\n{then}{pad}else\n{els}'
+            c = self.truth(s.test, env, binds)
+
+            def body(i):
+                then = self.stmts([(x, scope) for x in s.body] + rest, dict(env), ret_type, i + 2)
+                els = self.stmts([(x, scope) for x in s.orelse] + rest, dict(env), ret_type, i + 2)
+                return f'{" " * i}if {c} then\n{then}{" " * i}else\n{els}'
+            return self.with_binds(binds, scope, env, ret_type, ind, body)
+        if isinstance(s, ast.Assign) and len(s.targets) == 1 and isinstance(s.targets[0], ast.Name):
+            name = s.targets[0].id
+            if not re.fullmatch(r'[a-z][a-z0-9_]*', name) or re.fullmatch(r't\d+', name) or name in LEAN_RESERVED \
+                    or any(name == ln for k, (ln, _) in self.env.items() if k != name):
+                self.skip(s)
+            v, t = self.expr(s.value, env, binds)
+
+            def body(i):
+                env2 = {k: x for k, x in env.items() if not _mentions(k, name)}
+                env2[name] = (name, t)
+                return f'{" " * i}let {name} := {v}\n' + self.stmts(rest, env2, ret_type, i)
+            return self.with_binds(binds, scope, env, ret_type, ind, body)
+        if isinstance(s, ast.Try):
+            if s.orelse or s.finalbody or not s.handlers:
+                self.skip(s)
+            hs = []
+            for h in s.handlers:
+                if not hasattr(h, '_table'):
+                    raise Skip(f'{self.what}: try statement without a generated except table')
+                hs.append((h._table, h.body))
+            grp = (tuple(hs), rest)
+            return self.stmts([(x, scope + (grp,)) for x in s.body] + rest, env, ret_type, ind)
         self.skip(s)
 
 
-def translate_validate(repo, fname, cls, lean_name, params, env, ret_type, doc):
+def _indent(text, n):
+    if n >= 0:
+        return ''.join((' ' * n + l if l.strip() else l) for l in text.splitlines(True))
+    return ''.join((l[-n:] if l.startswith(' ' * -n) else l) for l in text.splitlines(True))
+
+
+def _mentions(expr_text, name):
+    try:
+        return any(isinstance(n, ast.Name) and n.id == name for n in ast.walk(ast.parse(expr_text, mode='eval')))
+    except SyntaxError:
+        return False
+
+
+def literal_date(e, tree):
+    """[year, month, day] when `e` is `datetime(<y>, <m>, <d>)` of int literals (a name bound once, at module level, is looked
+    through: `EPOCH = datetime(1970, 1, 1)`, `EPOCH_YEAR = 1970`); [] for any other expression"""
+    def resolve(x):
+        seen = 0
+        while isinstance(x, ast.Name) and seen < 5:
+            v = module_constant(tree, x.id)
+            if v is None:
+                return x
+            x, seen = v, seen + 1
+        return x
+    a = resolve(e)
+    from_dt = {x.asname or x.name: x.name for n in tree.body if isinstance(n, ast.ImportFrom) and n.module == 'datetime' and not n.level for x in n.names}
+    if not (isinstance(a, ast.Call) and isinstance(a.func, ast.Name) and from_dt.get(a.func.id) == 'datetime' and len(a.args) + len(a.keywords) == 3):
+        return []
+    parts = [resolve(x) for x in a.args] + [resolve(k.value) for k in a.keywords]
+    if not all(isinstance(x, ast.Constant) and type(x.value) is int for x in parts):
+        return []
+    vals = dict(zip(['year', 'month', 'day'], [x.value for x in parts[:len(a.args)]]))
+    for k, x in zip(a.keywords, parts[len(a.args):]):
+        if k.arg not in ('year', 'month', 'day') or k.arg in vals:
+            return []
+        vals[k.arg] = x.value
+    return [vals['year'], vals['month'], vals['day']]
+
+
+def translate_validate(repo, fname, cls, lean_name, params, env, ret_type, doc, oracles=(), init=None, tables=None):
+    """`tables`: {index of the try statement (source order): name of its generated except table}"""
     rel = VDIR + fname
     tree = ast.parse(src(repo, rel))
     fn = find_func(tree, 'validate', cls=cls)
     args = [a.arg for a in fn.args.args]
     if args != ['self', 'value'] or fn.args.vararg or fn.args.kwarg or fn.args.kwonlyargs:
         raise Skip(f'{cls}.validate: unexpected parameters {args}')
-    check_init(tree, cls, env)
-    body = Tr(env, f'{cls}.validate').stmts(fn.body, ret_type, 2)
+    if init is None:
+        check_init(tree, cls, env)
+    else:
+        check_init_forms(tree, cls, init)
+    tries = sorted([n for n in ast.walk(fn) if isinstance(n, ast.Try)], key=lambda n: (n.lineno, n.col_offset))
+    for i, t in enumerate(tries):
+        if len(t.handlers) != 1:
+            raise Skip(f'{cls}.validate: a try statement with {len(t.handlers)} except clauses')
+        t.handlers[0]._table = f'{lname(cls)}Caught{i}'
+    tr = Tr(env, f'{cls}.validate', oracles, tree)
+    body = tr.stmts(fn.body, None, ret_type, 2)
     rt = {'N': 'Num', 'V': 'Val'}[ret_type]
-    return f'/-- {rel}: `{cls}.validate`, translated statement by statement. {doc} -/\ndef {lean_name} {params} : VRes {rt} :=\n{body}'
+    text = f'/-- {rel}: `{cls}.validate`, translated statement by statement. {doc} -/\ndef {lean_name} {params} : VRes {rt} :=\n{body}'
+    return text, tr
 
 
 def check_init(tree, cls, env):
@@ -203,6 +425,34 @@ def check_init(tree, cls, env):
             if attr not in assigned or assigned[attr] not in params:
                 raise Skip(f'{cls}.__init__ does not store a parameter in self.{attr}')
     return assigned
+
+
+def check_init_forms(tree, cls, forms):
+    """`forms`: {attribute: [allowed right-hand sides]}; {} = the class has no __init__ of its own.  Every statement of __init__
+    is `self.<attr> = <expr>`, each attribute the translation reads is assigned exactly once, with one of the allowed expressions
+    (a constructor parameter, or `re.compile` of it)"""
+    inits = [n for c in tree.body if isinstance(c, ast.ClassDef) and c.name == cls for n in c.body
+             if isinstance(n, ast.FunctionDef) and n.name == '__init__']
+    if not forms:
+        if inits:
+            raise Skip(f'{cls} has an __init__ the translation does not know')
+        return
+    if len(inits) != 1:
+        raise Skip(f'{cls}.__init__ not found')
+    init = inits[0]
+    params = [a.arg for a in init.args.args][1:]
+    seen = {}
+    for s in strip_doc(init.body):
+        if not (isinstance(s, ast.Assign) and len(s.targets) == 1 and isinstance(s.targets[0], ast.Attribute)
+                and isinstance(s.targets[0].value, ast.Name) and s.targets[0].value.id == 'self'):
+            raise Skip(f'{cls}.__init__: statement outside the subset: {ast.unparse(s)[:60]}')
+        attr = s.targets[0].attr
+        if attr in seen:
+            raise Skip(f'{cls}.__init__ assigns self.{attr} twice')
+        seen[attr] = ast.unparse(s.value)
+    for attr, allowed in forms.items():
+        if seen.get(attr) not in allowed:
+            raise Skip(f'{cls}.__init__ does not store its parameter in self.{attr} (found: {seen.get(attr)})')
 
 
 # ------------------------------------------------------------------ tables
@@ -227,6 +477,8 @@ def validator_classes(repo):
 
 
 def rejections_and_caught(fn, what):
+    """(classes raised by the rejection statements of the function, source order; for each try statement, source order: the
+    classes named by its except clauses)"""
     rej, caught = [], []
     for node in ast.walk(fn):
         if isinstance(node, (ast.Expr, ast.Return, ast.Raise)):
@@ -239,13 +491,10 @@ def rejections_and_caught(fn, what):
             cl = []
             for h in node.handlers:
                 cl += handler_classes(h)
-                hb = strip_doc(h.body)
-                if len(hb) != 1 or rejection_class(hb[0]) is None:
-                    raise Skip(f'{what}: an except handler does something other than rejecting')
-            caught.append((node.lineno, cl, [rejection_class(strip_doc(h.body)[0]) for h in node.handlers]))
+            caught.append((node.lineno, node.col_offset, cl))
     rej.sort()
     caught.sort()
-    return [r for _, _, r in rej], [(c, hr) for _, c, hr in caught]
+    return [r for _, _, r in rej], [c for _, _, c in caught]
 
 
 def lname(cls):
@@ -264,8 +513,10 @@ def re_entry(fn, what):
             if subj is None and node.args:
                 subj = node.args[-1]
             hits.append((node.func.attr, ast.unparse(subj) if subj is not None else ''))
+    if not hits:
+        return '', ''           # no `re` call at all: the table says so (and the theorem that pins the entry point fails)
     if len(hits) != 1:
-        raise Skip(f'{what}: expected exactly one call of a re matching function')
+        raise Skip(f'{what}: more than one call of a re matching function')
     return hits[0]
 
 
@@ -409,50 +660,6 @@ def gen_import_time(repo):
             + ', '.join(f'({lean_str(a)}, {lean_str(b)})' for a, b in rows) + ']\n\n')
 
 
-def unix_epoch(ux, tree):
-    """`return datetime(<y>, <m>, <d>) + timedelta(seconds=<seconds>)` in the second try block: [y, m, d]; [] for any other summand
-    (a name bound once, at module level, is looked through: `EPOCH = datetime(1970, 1, 1)`, `EPOCH_YEAR = 1970`)"""
-    def resolve(e):
-        seen = 0
-        while isinstance(e, ast.Name) and seen < 5:
-            v = module_constant(tree, e.id)
-            if v is None:
-                return e
-            e, seen = v, seen + 1
-        return e
-    tries = [n for n in ast.walk(ux) if isinstance(n, ast.Try)]
-    tries.sort(key=lambda n: n.lineno)
-    if len(tries) != 2:
-        raise Skip('DateTimeUnixTimestamp.validate: expected two try blocks')
-    first = strip_doc(tries[0].body)
-    if not (len(first) == 1 and isinstance(first[0], ast.Assign) and isinstance(first[0].targets[0], ast.Name)
-            and ast.unparse(first[0].value) in ('float(value)',)):
-        raise Skip('DateTimeUnixTimestamp.validate: the first try block is not `<seconds> = float(value)`')
-    sec = first[0].targets[0].id
-    body = strip_doc(tries[1].body)
-    if not (len(body) == 1 and isinstance(body[0], ast.Return) and isinstance(body[0].value, ast.BinOp) and isinstance(body[0].value.op, ast.Add)):
-        raise Skip('DateTimeUnixTimestamp.validate: the second try block is not `return <a> + <b>`')
-    a, b = body[0].value.left, body[0].value.right
-    td = f'timedelta(seconds={sec})'
-    if ast.unparse(b) != td:
-        a, b = b, a
-    if ast.unparse(b) != td:
-        raise Skip(f'DateTimeUnixTimestamp.validate: no summand {td}')
-    a = resolve(a)
-    from_dt = {x.asname or x.name: x.name for n in tree.body if isinstance(n, ast.ImportFrom) and n.module == 'datetime' and not n.level for x in n.names}
-    if not (isinstance(a, ast.Call) and isinstance(a.func, ast.Name) and from_dt.get(a.func.id) == 'datetime' and len(a.args) + len(a.keywords) == 3):
-        return []
-    parts = [resolve(x) for x in a.args] + [resolve(k.value) for k in a.keywords]
-    if not all(isinstance(x, ast.Constant) and type(x.value) is int for x in parts):
-        return []
-    vals = dict(zip(['year', 'month', 'day'], [x.value for x in parts[:len(a.args)]]))
-    for k, x in zip(a.keywords, parts[len(a.args):]):
-        if k.arg not in ('year', 'month', 'day') or k.arg in vals:
-            return []
-        vals[k.arg] = x.value
-    return [vals['year'], vals['month'], vals['day']]
-
-
 def gen_convert(repo):
     rel = 'pedantic/decorators/fn_deco_validate/convert_value.py'
     tree = ast.parse(src(repo, rel))
@@ -491,53 +698,62 @@ def gen_convert(repo):
     chain.reverse()
     if not set(chain) <= {'strip', 'lower'}:
         raise Skip(f'{W}: normalisation uses methods other than strip/lower: {chain}')
-    # 3. bool branch
-    s2 = body[2]
-    if not (isinstance(s2, ast.If) and ast.unparse(s2.test) == 'target_type == bool' and not s2.orelse and len(s2.body) == 2):
-        raise Skip(f'{W}: third statement is not the `target_type == bool` branch')
-    inner, fail = s2.body
-    lits = []
-    cur = inner
-    while True:
-        if not (isinstance(cur, ast.If) and isinstance(cur.test, ast.Compare) and len(cur.test.ops) == 1
-                and isinstance(cur.test.ops[0], ast.In) and ast.unparse(cur.test.left) == 'value'
-                and isinstance(cur.test.comparators[0], (ast.List, ast.Tuple, ast.Set))
-                and all(isinstance(x, ast.Constant) and isinstance(x.value, str) for x in cur.test.comparators[0].elts)
-                and len(cur.body) == 1 and isinstance(cur.body[0], ast.Return) and isinstance(cur.body[0].value, ast.Constant)
-                and isinstance(cur.body[0].value.value, bool)):
-            raise Skip(f'{W}: bool branch is not a chain of `value in [literals]: return <bool>`')
-        lits.append((cur.body[0].value.value, [x.value for x in cur.test.comparators[0].elts]))
-        if not cur.orelse:
-            break
-        if len(cur.orelse) != 1:
-            raise Skip(f'{W}: bool branch has an else block')
-        cur = cur.orelse[0]
-    true_l = [x for b, l in lits if b for x in l]
-    false_l = [x for b, l in lits if not b for x in l]
-    bool_fail = rejection_class(fail)
-    if bool_fail is None:
-        raise Skip(f'{W}: the bool branch does not end in a raise')
-    # 4. try block
-    s3 = body[3]
-    if len(body) != 4 or not isinstance(s3, ast.Try) or s3.orelse or s3.finalbody or len(s3.handlers) != 1:
-        raise Skip(f'{W}: fourth statement is not a single try/except')
+    # 3. bool branch (optional: without it bool is converted like every other target, by `target_type(value)`)
+    special = []
+    rest = body[2:]
+    true_l, false_l, bool_fail = [], [], '(.other "convert_value has no bool branch")'
+    if rest and isinstance(rest[0], ast.If) and ast.unparse(rest[0].test) == 'target_type == bool':
+        s2, rest = rest[0], rest[1:]
+        if s2.orelse or len(s2.body) != 2:
+            raise Skip(f'{W}: the `target_type == bool` branch changed')
+        inner, fail = s2.body
+        lits = []
+        cur = inner
+        while True:
+            if not (isinstance(cur, ast.If) and isinstance(cur.test, ast.Compare) and len(cur.test.ops) == 1
+                    and isinstance(cur.test.ops[0], ast.In) and ast.unparse(cur.test.left) == 'value'
+                    and isinstance(cur.test.comparators[0], (ast.List, ast.Tuple, ast.Set))
+                    and all(isinstance(x, ast.Constant) and isinstance(x.value, str) for x in cur.test.comparators[0].elts)
+                    and len(cur.body) == 1 and isinstance(cur.body[0], ast.Return) and isinstance(cur.body[0].value, ast.Constant)
+                    and isinstance(cur.body[0].value.value, bool)):
+                raise Skip(f'{W}: bool branch is not a chain of `value in [literals]: return <bool>`')
+            lits.append((cur.body[0].value.value, [x.value for x in cur.test.comparators[0].elts]))
+            if not cur.orelse:
+                break
+            if len(cur.orelse) != 1:
+                raise Skip(f'{W}: bool branch has an else block')
+            cur = cur.orelse[0]
+        true_l = [x for b, l in lits if b for x in l]
+        false_l = [x for b, l in lits if not b for x in l]
+        bool_fail = rejection_class(fail)
+        if bool_fail is None:
+            raise Skip(f'{W}: the bool branch does not end in a raise')
+        special.append('bool')
+    # 4. try block: optional list / dict branches (an if / elif chain), then `return target_type(value)`
+    if len(rest) != 1 or not isinstance(rest[0], ast.Try) or rest[0].orelse or rest[0].finalbody or len(rest[0].handlers) != 1:
+        raise Skip(f'{W}: the last statement is not a single try/except')
+    s3 = rest[0]
     h = s3.handlers[0]
     hb = strip_doc(h.body)
     if len(hb) != 1 or rejection_class(hb[0]) is None:
         raise Skip(f'{W}: handler does something other than raising')
     tb = s3.body
-    if not (len(tb) == 2 and isinstance(tb[0], ast.If) and isinstance(tb[1], ast.Return)
-            and ast.unparse(tb[1].value) == 'target_type(value)'):
-        raise Skip(f'{W}: try body is not `if …list… elif …dict…` followed by `return target_type(value)`')
-    li = tb[0]
-    if not (ast.unparse(li.test) == 'target_type == list' and len(li.body) == 1 and isinstance(li.body[0], ast.Return)
-            and ast.unparse(li.body[0].value) == "[item.strip() for item in value.split(',')]"):
-        raise Skip(f'{W}: list branch changed')
-    if not (len(li.orelse) == 1 and isinstance(li.orelse[0], ast.If) and ast.unparse(li.orelse[0].test) == 'target_type == dict'
-            and not li.orelse[0].orelse and len(li.orelse[0].body) == 1
-            and ast.unparse(li.orelse[0].body[0]) ==
-            "value = {item.split(':')[0].strip(): item.partition(':')[-1].strip() for item in value.split(',')}"):
-        raise Skip(f'{W}: dict branch changed')
+    if not (tb and isinstance(tb[-1], ast.Return) and ast.unparse(tb[-1].value) == 'target_type(value)' and len(tb) <= 2):
+        raise Skip(f'{W}: try body does not end in `return target_type(value)`')
+    cur = tb[0] if len(tb) == 2 else None
+    LIST_B = "return [item.strip() for item in value.split(',')]"
+    DICT_B = "value = {item.split(':')[0].strip(): item.partition(':')[-1].strip() for item in value.split(',')}"
+    while cur is not None:
+        if not (isinstance(cur, ast.If) and len(cur.body) == 1 and len(cur.orelse) <= 1):
+            raise Skip(f'{W}: try body is not an if / elif chain over the target type')
+        test, stmt = ast.unparse(cur.test), ast.unparse(cur.body[0])
+        if test == 'target_type == list' and stmt == LIST_B and 'list' not in special and 'dict' not in special:
+            special.append('list')
+        elif test == 'target_type == dict' and stmt == DICT_B and 'dict' not in special:
+            special.append('dict')
+        else:
+            raise Skip(f'{W}: list / dict branch changed')
+        cur = cur.orelse[0] if cur.orelse else None
     return f'''/-! {rel}: the structure of `convert_value` -/
 /-- first statement is `if isinstance(value, target_type): return value` -/
 def convertShortcut : Bool := {lean_bool(shortcut)}
@@ -558,7 +774,7 @@ def convertCaught : List Exc := {exc_list(handler_classes(h))}
 /-- class raised by that handler -/
 def convertHandlerRaises : Exc := {rejection_class(hb[0])}
 /-- targets with their own branch, in source order; every other target is `target_type(value)` -/
-def convertSpecialTargets : List String := ["bool", "list", "dict"]
+def convertSpecialTargets : List String := [{', '.join(lean_str(c) for c in special)}]
 '''
 
 
@@ -572,9 +788,12 @@ def exc_bases(repo):
     return rel, rows
 
 
+RE_METHODS = ('match', 'fullmatch', 'search')
+
+
 def gen_validators(repo):
     out = [HEADER.format(rel='pedantic/decorators/fn_deco_validate/{validators/*.py, convert_value.py, exceptions.py}'),
-           'import PedVerif.Model.ValidatorsBase\nnamespace PedVerif.Gen.Validators\nopen PedVerif.Validators\n\n']
+           'import PedVerif.Model.ValidatorsBase\nset_option linter.unusedVariables false\nnamespace PedVerif.Gen.Validators\nopen PedVerif.Validators\n\n']
     # raise_exception
     av = ast.parse(src(repo, VDIR + 'abstract_validator.py'))
     rex = find_func(av, 'raise_exception', cls='Validator')
@@ -586,51 +805,91 @@ def gen_validators(repo):
     rel, rows = exc_bases(repo)
     out.append(f'/-- {rel}: (class, first base) -/\ndef excBases : List (String × String) := ['
                + ', '.join(f'({lean_str(a)}, {lean_str(b)})' for a, b in rows) + ']\n\n')
-    # translated functions
-    num_env = {'value': ('value', 'N'), 'self._value': ('self_value', 'N'), 'self._include_boundary': ('self_include_boundary', 'B')}
-    out.append(translate_validate(repo, 'min.py', 'Min', 'minValidate', '(self_value : Num) (self_include_boundary : Bool) (value : Num)', num_env, 'N', '') + '\n')
-    out.append(translate_validate(repo, 'max.py', 'Max', 'maxValidate', '(self_value : Num) (self_include_boundary : Bool) (value : Num)', num_env, 'N', '') + '\n')
-    len_env = {'value': ('value', 'V'), 'self._length': ('self_length', 'I')}
-    out.append(translate_validate(repo, 'min_length.py', 'MinLength', 'minLengthValidate', '(self_length : Int) (value : Val)', len_env, 'V', '') + '\n')
-    out.append(translate_validate(repo, 'max_length.py', 'MaxLength', 'maxLengthValidate', '(self_length : Int) (value : Val)', len_env, 'V', '') + '\n')
-    ne_env = {'value': ('value', 'V'), 'self.strip': ('self_strip', 'B')}
-    out.append(translate_validate(repo, 'not_empty.py', 'NotEmpty', 'notEmptyValidate', '(isSpace : Char → Bool) (self_strip : Bool) (value : Val)', ne_env, 'V',
-                                  '`isSpace` is the whitespace predicate of `str.strip()`.') + '\n')
     # per-class rejection / except tables
     classes = validator_classes(repo)
-    tab_rej, tab_caught = [], []
+    tab_rej = []
     per = {}
     for f, cls, fn in classes:
         rej, caught = rejections_and_caught(fn, f'{cls}.validate')
         per[cls] = (rej, caught, fn)
         tab_rej.append(f'({lean_str(cls)}, [{", ".join(rej)}])')
-        tab_caught.append(f'({lean_str(cls)}, [{", ".join(exc_list(c) for c, _ in caught)}])')
     expected = ['Composite', 'DatetimeIsoFormat', 'DateTimeUnixTimestamp', 'Email', 'IsEnum', 'ForEach', 'IsUuid', 'MatchPattern',
                 'Max', 'MaxLength', 'Min', 'MinLength', 'NotEmpty']
     if sorted(per) != sorted(expected):
         raise Skip(f'validator classes changed: {sorted(per)}')
     out.append('/-- for every validator class: the classes raised on the rejection paths of `validate` (source order) -/\n'
                'def rejects : List (String × List Exc) := [\n  ' + ',\n  '.join(tab_rej) + ']\n')
-    out.append('/-- for every validator class: the classes named by each `try … except` of `validate` (source order) -/\n'
-               'def caught : List (String × List (List Exc)) := [\n  ' + ',\n  '.join(tab_caught) + ']\n\n')
-    for cls, n in [('IsUuid', 1), ('IsEnum', 1), ('DatetimeIsoFormat', 1), ('DateTimeUnixTimestamp', 2)]:
-        rej, caught, fn = per[cls]
-        if len(caught) != n:
-            raise Skip(f'{cls}.validate: expected {n} try block(s), found {len(caught)}')
-        for i, (c, hr) in enumerate(caught):
-            if len(set(hr)) != 1:
-                raise Skip(f'{cls}.validate: handlers of one try raise different classes')
-            out.append(f'/-- {cls}.validate, try block {i}: classes caught / class raised by the handler -/\n'
-                       f'def {lname(cls)}Caught{i} : List Exc := {exc_list(c)}\ndef {lname(cls)}Handler{i} : Exc := {hr[0]}\n')
-    for cls in ['Email', 'MatchPattern', 'ForEach', 'DateTimeUnixTimestamp']:
-        rej = per[cls][0]
-        if len(set(rej)) != 1:
-            raise Skip(f'{cls}.validate: rejection paths raise different classes (or none)')
-    out.append(f'/-- class raised by the (only) guard rejection of these validators -/\n'
-               f'def emailRejects : Exc := {per["Email"][0][0]}\ndef matchPatternRejects : Exc := {per["MatchPattern"][0][0]}\n'
-               f'def forEachRejects : Exc := {per["ForEach"][0][0]}\ndef dateTimeUnixTimestampRejects : Exc := {per["DateTimeUnixTimestamp"][0][0]}\n\n')
+    out.append('\n')
+    out.append('/-! the except tables the translated functions below test with `catches`: `<class>Caught<i>` = the classes named by the\n'
+               '    except clause of the i-th try statement of `<class>.validate` -/\n')
+    for f, cls, fn in classes:
+        for i, c in enumerate(per[cls][1]):
+            out.append(f'def {lname(cls)}Caught{i} : List Exc := {exc_list(c)}\n')
+    out.append('\n')
+    if len(set(per['ForEach'][0])) != 1:
+        raise Skip('ForEach.validate: rejection paths raise different classes (or none)')
+    out.append(f'/-- class raised by the (only) guard rejection of ForEach (its loop is modelled by hand: `run`) -/\n'
+               f'def forEachRejects : Exc := {per["ForEach"][0][0]}\n\n')
     if per['Composite'][0] or per['Composite'][1]:
         raise Skip('Composite.validate raises or catches on its own')
+    # translated functions
+    num_env = {'value': ('value', 'N'), 'self._value': ('self_value', 'N'), 'self._include_boundary': ('self_include_boundary', 'B')}
+    out.append(translate_validate(repo, 'min.py', 'Min', 'minValidate', '(self_value : Num) (self_include_boundary : Bool) (value : Num)', num_env, 'N', '')[0] + '\n')
+    out.append(translate_validate(repo, 'max.py', 'Max', 'maxValidate', '(self_value : Num) (self_include_boundary : Bool) (value : Num)', num_env, 'N', '')[0] + '\n')
+    len_env = {'value': ('value', 'V'), 'self._length': ('self_length', 'I')}
+    out.append(translate_validate(repo, 'min_length.py', 'MinLength', 'minLengthValidate', '(self_length : Int) (value : Val)', len_env, 'V', '')[0] + '\n')
+    out.append(translate_validate(repo, 'max_length.py', 'MaxLength', 'maxLengthValidate', '(self_length : Int) (value : Val)', len_env, 'V', '')[0] + '\n')
+    ne_env = {'value': ('value', 'V'), 'self.strip': ('self_strip', 'B')}
+    out.append(translate_validate(repo, 'not_empty.py', 'NotEmpty', 'notEmptyValidate', '(isSpace : Char → Bool) (self_strip : Bool) (value : Val)', ne_env, 'V',
+                                  '`isSpace` is the whitespace predicate of `str.strip()`.')[0] + '\n')
+    # validators that ask the standard library: the callees are opaque parameters (`Orc` = the answer or the class raised)
+    out.append(translate_validate(
+        repo, 'is_uuid.py', 'IsUuid', 'isUuidValidate', '(self_convert : Bool) (uuidOfStr : Val → Orc Val) (value : Val)',
+        {'value': ('value', 'V'), 'self._convert': ('self_convert', 'B')}, 'V',
+        '`uuidOfStr x` is the answer of `UUID(str(x))`.',
+        oracles=[Oracle('UUID(str(_0))', 'uuidOfStr', ['V'], 'V', True)], init={'_convert': ['convert']})[0] + '\n')
+    out.append(translate_validate(
+        repo, 'enum.py', 'IsEnum', 'isEnumValidate',
+        '(self_convert self_to_upper_case : Bool) (isStrInst : Val → Bool) (upperOf : Val → Val) (isIntEnum : Bool) (intOf enumOf : Val → Orc Val) (value : Val)',
+        {'value': ('value', 'V'), 'self._convert': ('self_convert', 'B'), 'self._to_upper_case': ('self_to_upper_case', 'B')}, 'V',
+        '`isStrInst x` = `isinstance(x, str)`, `upperOf x` = `x.upper()`, `isIntEnum` = `issubclass(self._enum, IntEnum)`, '
+        '`intOf x` the answer of `int(x)`, `enumOf x` that of `self._enum(x)`.',
+        oracles=[Oracle('isinstance(_0, str)', 'isStrInst', ['V'], 'B', False), Oracle('_0.upper()', 'upperOf', ['V'], 'V', False),
+                 Oracle('issubclass(self._enum, IntEnum)', 'isIntEnum', [], 'B', False), Oracle('int(_0)', 'intOf', ['V'], 'V', True),
+                 Oracle('self._enum(_0)', 'enumOf', ['V'], 'V', True)],
+        init={'_enum': ['enum'], '_convert': ['convert'], '_to_upper_case': ['to_upper_case']})[0] + '\n')
+    out.append(translate_validate(
+        repo, 'match_pattern.py', 'MatchPattern', 'matchPatternValidate', '(reMatch : Val → Orc Bool) (value : Val)',
+        {'value': ('value', 'V')}, 'V',
+        '`reMatch x` is the answer of `self._pattern.<matchPatternMethod>(<matchPatternSubject>)` for `value = x` (is there a match?).',
+        oracles=[Oracle(f'self._pattern.{m}({a})', 'reMatch', ['V'], 'B', True) for m in RE_METHODS
+                 for a in ('string=str(_0)', 'str(_0)', 'string=_0', '_0')],
+        init={'_pattern': ['re.compile(pattern=pattern)', 're.compile(pattern)']})[0] + '\n')
+    out.append(translate_validate(
+        repo, 'datetime_isoformat.py', 'DatetimeIsoFormat', 'datetimeIsoFormatValidate', '(fromIso : Val → Orc Val) (value : Val)',
+        {'value': ('value', 'V')}, 'V', '`fromIso x` is the answer of `datetime.fromisoformat(x)`.',
+        oracles=[Oracle('datetime.fromisoformat(_0)', 'fromIso', ['V'], 'V', True)], init={})[0] + '\n')
+    ux_text, ux_tr = translate_validate(
+        repo, 'datetime_unix_timestamp.py', 'DateTimeUnixTimestamp', 'dateTimeUnixTimestampValidate',
+        '(floatOf : Val → Orc Num) (timedeltaOf : Num → Orc Int) (datetimePlus : List Int → Int → Orc Val) (value : Val)',
+        {'value': ('value', 'V')}, 'V',
+        '`floatOf x` is the answer of `float(x)`, `timedeltaOf s` that of `timedelta(seconds=s)` in whole microseconds, '
+        '`datetimePlus [y, m, d] us` that of `datetime(y, m, d) + <timedelta of us microseconds>`.',
+        oracles=[Oracle('float(_0)', 'floatOf', ['V'], 'N', True), Oracle('timedelta(seconds=_0)', 'timedeltaOf', ['N'], 'T', True)], init={})
+    eps = ux_tr.epochs
+    if len(eps) > 1 and any(e != eps[0] for e in eps):
+        raise Skip('DateTimeUnixTimestamp.validate: timedeltas are added to different dates')
+    ep = eps[0] if eps else []
+    it = gen_import_time(repo)
+    if eps and not ep and it.rstrip().endswith(':= []'):
+        # not a literal date and nothing computed at import time either (e.g. an inline call): outside the subset - the
+        # correspondence check (which runs the timestamps in several time zones) decides alone
+        raise Skip('DateTimeUnixTimestamp.validate: the seconds are not added to a literal date')
+    out.append(f'/-- the summand `datetime(<year>, <month>, <day>)` of `<it> + timedelta(seconds=seconds)`: [year, month, day] of the\n'
+               f'    literal date (a name bound once, at module level, to such a literal is looked through); `[]` when the summand is a value\n'
+               f'    computed at import time (see `importTimeComputations`) or when nothing is added at all -/\n'
+               f'def dateTimeUnixTimestampEpoch : List Int := [{", ".join(str(x) for x in ep)}]\n\n')
+    out.append(ux_text + '\n')
     # e-mail pattern and re entry points
     em = ast.parse(src(repo, VDIR + 'email.py'))
     pat = None
@@ -643,35 +902,21 @@ def gen_validators(repo):
     defaults = dict(zip([a.arg for a in init.args.args][-len(init.args.defaults):], init.args.defaults))
     if ast.unparse(defaults.get('email_pattern', ast.Constant(0))) != 'REGEX_EMAIL':
         raise Skip('Email.__init__: default of email_pattern is not REGEX_EMAIL')
+    out.append(translate_validate(
+        repo, 'email.py', 'Email', 'emailValidate', '(reMatch : Val → Orc Bool) (post : Val → Val) (value : Val)',
+        {'value': ('value', 'V')}, 'V',
+        '`reMatch x` is the answer of `re.<emailMethod>(self._pattern, <emailSubject>)` for `value = x` (is there a match?), `post` the `post_processor`.',
+        oracles=[Oracle(f're.{m}({a})', 'reMatch', ['V'], 'B', True) for m in RE_METHODS
+                 for a in ('pattern=self._pattern, string=_0', 'self._pattern, _0', 'self._pattern, string=_0')]
+        + [Oracle('self._post_processor(_0)', 'post', ['V'], 'V', False)],
+        init={'_pattern': ['email_pattern'], '_post_processor': ['post_processor']})[0] + '\n')
     meth, subj = re_entry(per['Email'][2], 'Email.validate')
     out.append(f'/-- {VDIR}email.py: `REGEX_EMAIL` (the default of `email_pattern`) -/\ndef regexEmail : String := {lean_str(pat)}\n'
                f'/-- the `re` function `Email.validate` calls, and its subject -/\ndef emailMethod : String := {lean_str(meth)}\n'
                f'def emailSubject : String := {lean_str(subj)}\n')
     meth, subj = re_entry(per['MatchPattern'][2], 'MatchPattern.validate')
     out.append(f'/-- {VDIR}match_pattern.py: the method of the compiled pattern `MatchPattern.validate` calls, and its subject -/\n'
-               f'def matchPatternMethod : String := {lean_str(meth)}\ndef matchPatternSubject : String := {lean_str(subj)}\n')
-    # isinstance tuple of DateTimeUnixTimestamp
-    ux = per['DateTimeUnixTimestamp'][2]
-    first = strip_doc(ux.body)[0]
-    t = first.test if isinstance(first, ast.If) else None
-    if not (t is not None and isinstance(t, ast.UnaryOp) and isinstance(t.op, ast.Not) and isinstance(t.operand, ast.Call)
-            and ast.unparse(t.operand.func) == 'isinstance' and ast.unparse(t.operand.args[0]) == 'value'
-            and len(first.body) == 1 and rejection_class(first.body[0]) is not None):
-        raise Skip('DateTimeUnixTimestamp.validate: first statement is not the isinstance guard')
-    tt = t.operand.args[1]
-    names = [name_of(x) for x in tt.elts] if isinstance(tt, ast.Tuple) else [name_of(tt)]
-    out.append(f'/-- {VDIR}datetime_unix_timestamp.py: `if not isinstance(value, (<these>)): reject` -/\n'
-               f'def dateTimeUnixTimestampTypes : List String := [{", ".join(lean_str(n) for n in names)}]\n\n')
-    ep = unix_epoch(ux, ast.parse(src(repo, VDIR + 'datetime_unix_timestamp.py')))
-    it = gen_import_time(repo)
-    if not ep and it.rstrip().endswith(':= []'):
-        # not a literal date and nothing computed at import time either (e.g. an inline call): outside the subset - the
-        # correspondence check (which runs the timestamps in several time zones) decides alone
-        raise Skip('DateTimeUnixTimestamp.validate: the seconds are not added to a literal date')
-    out.append(f'/-- the summand `datetime(<year>, <month>, <day>)` of `return <it> + timedelta(seconds=seconds)`: [year, month, day] of the\n'
-               f'    literal date (a name bound once, at module level, to such a literal is looked through); `[]` when the summand is a value\n'
-               f'    computed at import time (see `importTimeComputations`) -/\n'
-               f'def dateTimeUnixTimestampEpoch : List Int := [{", ".join(str(x) for x in ep)}]\n\n')
+               f'def matchPatternMethod : String := {lean_str(meth)}\ndef matchPatternSubject : String := {lean_str(subj)}\n\n')
     out.append(it)
     out.append(gen_convert(repo))
     out.append('\nend PedVerif.Gen.Validators\n')
